@@ -284,11 +284,15 @@ class ImageWriter:
         return False
 
     def _create_unique_image_name(self, image: LTImage, ext: str) -> Tuple[str, str]:
-        name = image.name + ext
+        # the name comes from the document: keep it inside the output directory
+        basename = os.path.basename(image.name.replace("\\", "/").replace("\0", ""))
+        if basename in ("", ".", ".."):
+            basename = "image"
+        name = basename + ext
         path = os.path.join(self.outdir, name)
         img_index = 0
         while os.path.exists(path):
-            name = "%s.%d%s" % (image.name, img_index, ext)
+            name = "%s.%d%s" % (basename, img_index, ext)
             path = os.path.join(self.outdir, name)
             img_index += 1
         return name, path
